@@ -8,6 +8,10 @@
    source; weak compare-exchange may fail spuriously; futex_wait may return spuriously).  The theorems hold in every
    reachable state.  Scope of the model: one serial lane targeting a root queue, not suspended / retargeted, not thread
    bound (see the header of Model/SyncWait.v); the QoS argument of the bodies is arbitrary in 0..7.
+   FLAT CLIENTS: the thread automaton accepts a submission call (DVU_CALL) only at Idle, i.e. never from inside a work
+   item of the lane: an item that submits to its own queue (drainer = pusher, e.g. dispatch_async / dispatch_sync on the
+   queue it runs on) is outside the model and outside every theorem of this file ("any number of threads, every
+   interleaving" is about threads that are each either a client between callouts or a worker).
 
    Part 2 (Proofs/SyncEdges_proofs.v): the visibility edges of the property's second sentence.  THE C11 MEMORY MODEL IS
    NOT FORMALISED: the C05_edge_* theorems are about the presence and placement of release / acquire pairs on the word
@@ -37,7 +41,9 @@ Proof. exact at_return_finished. Qed.
 Print Assumptions C05_sync_returns_after_finish.
 
 (* ... and so does every return step of a synchronous call, wherever it is taken (including the return of
-   dispatch_async_and_wait after the drainer ran the item) *)
+   dispatch_async_and_wait after the drainer ran the item).  This is an INVARIANT of the reachable states, not an enabling
+   condition: the model's return action (ARetS) is unguarded -- it would raise early_ret -- and the theorem says that in a
+   reachable state a thread that can take it has a finished item *)
 Theorem C05_sync_return_step_after_finish : forall s t e s',
   reach s -> valid_tid t -> gstep s t e = Some s' -> ek e = DVU_RET -> cst (pcs s t) <> CNone ->
   ist s t = IFin /\ runs s t = 1.
@@ -171,6 +177,14 @@ Theorem C05_edge_item_sync_return :
 Proof. exact edge_item_sync_return. Qed.
 Print Assumptions C05_edge_item_sync_return.
 
+(* group: which side is pinned.  PRODUCER: dispatch_group_leave starts with a release on dg_state; _dispatch_group_wake
+   publishes with a release on dg_notify_tail / dispatch_group_notify_f with a release on dg_state.  CONSUMER of
+   dispatch_group_WAIT: pinned (the acquire fence after the relaxed load that saw zero, or the acquire load of dg_gen in the
+   slow path, and the model returns 0 only on a changed generation read by that acquire).  CONSUMER of
+   dispatch_group_NOTIFY: NOT pinned here -- the thread that runs a notify block performs no acquire on the group's words
+   (semaphore.c: the final leaver's _dispatch_group_wake is release-only and hands the block to its queue with dx_push);
+   no theorem of this development pins that edge (it rests on the queue's own push -> pop edge from the final leaver,
+   C05_edge_submit_item, and on the earlier leavers' release RMWs on dg_state). *)
 Theorem C05_edge_group :
   first_is (release_on F_dg_state) dispatch_group_leave_sites = true /\
   nth_error dispatch_group_wait_sites 0 = Some {| s_kind := KLoad; s_field := F_dg_state; s_order := Relaxed |} /\
